@@ -50,10 +50,12 @@ def playback(prop, r, group):
     spec = r["spec"]
     res = kanirun.run_job(group, r["harness"], mode=spec.mode, timeout_s=spec.timeout * 2, mem_gb=spec.mem,
                           extra=["-Z", "concrete-playback", "--concrete-playback=inplace"])
-    m = re.search(r"- (kani_concrete_playback_\w+)", res.get("log_tail", "") or "")
-    if not m:
+    tests = re.findall(r"- (kani_concrete_playback_\w+)", res.get("log_tail", "") or "")
+    if not tests:
         return {"reproduced": False, "detail": "Kani produced no concrete playback test (class=%s)" % res["class"], "path": None}
-    test = m.group(1)
+    # Kani emits one test per failed check and per satisfied cover; run them all: the counterexample
+    # reproduces if at least one of them fails natively
+    test = "kani_concrete_playback_"
     env = dict(kanirun.ENV)
     env["CARGO_TARGET_DIR"] = os.path.join(group.dir, "target-playback")
     outs = {}
@@ -66,19 +68,19 @@ def playback(prop, r, group):
         rc, out = kanirun.sh(["cargo", "kani", "playback", "-Z", "concrete-playback", "--", test], cwd=group.dir,
                              timeout=1200, env=e)
         failed = ("test result: FAILED" in out) or ("panicked at" in out)
-        ran = "running 1 test" in out or "test result:" in out
+        ran = "test result:" in out
         outs[prof] = {"rc": rc, "test_failed": failed, "ran": ran, "tail": out[-1500:]}
         if prof == "dev" and not failed:
             reproduced = False
     shutil.rmtree(env["CARGO_TARGET_DIR"], ignore_errors=True)
     src = res.get("playback_src")
-    path = _save(prop, r, {"kind": "playback", "test": test, "native_runs": outs,
+    path = _save(prop, r, {"kind": "playback", "test": tests, "native_runs": outs,
                            "how_to_rerun": "./check %s --replay <this file>" % prop})
     # restore the pristine generated sources
     group.materialized = False
     group.materialize()
-    return {"reproduced": reproduced, "path": path, "detail": "native playback test %s: %s" % (
-        test, "FAILED as the solver predicted" if reproduced else "passed (did not reproduce)")}
+    return {"reproduced": reproduced, "path": path, "detail": "native playback tests %s: %s" % (
+        ",".join(tests)[:120], "FAILED as the solver predicted" if reproduced else "passed (did not reproduce)")}
 
 
 def native(prop, r, group, recipe, seed):
